@@ -51,6 +51,8 @@ def permuted(case, perm):
         p = dict(case["params"])
         p["Weights"] = [case["params"]["Weights"][i] for i in perm]
         c["params"] = p
+    if case.get("aliases"):
+        c["aliases"] = [sorted([perm.index(i), perm.index(j)]) for i, j in case["aliases"]]
     return c
 
 
@@ -72,6 +74,8 @@ def check_unit(case, rec):
     rec.label("cmd:" + cmd)
     if case.get("weights_as"):
         rec.label("weights_as_numpy_scalars:" + case["weights_as"])
+    if case.get("aliases"):
+        rec.label("same_result_listed_twice")
     if o.ref_kind == "expect":
         rec.label("error_case:" + o.expect, sample=case)
     if mixed_int_first:
